@@ -61,6 +61,9 @@ func Exempt(o object.PanObject) bool {
 	return false
 }
 
+// IncludeStack adds the stack-trace text of error objects to their fingerprint (C19).
+var IncludeStack = false
+
 // Fingerprint is the shallow structural fingerprint of one object.
 func Fingerprint(o object.PanObject) string {
 	switch v := o.(type) {
@@ -137,6 +140,9 @@ func Fingerprint(o object.PanObject) string {
 		}
 		return fmt.Sprintf("func kind=%d env=%p code=%s", v.FuncKind, v.Env, v.FuncWrapper.String())
 	case *object.PanErr:
+		if IncludeStack {
+			return fmt.Sprintf("err %s %q proto=%s stack=%q", v.ErrKind, v.Msg, pid(v.Proto()), v.StackTrace)
+		}
 		return fmt.Sprintf("err %s %q proto=%s", v.ErrKind, v.Msg, pid(v.Proto()))
 	case *object.PanErrWrapper:
 		return fmt.Sprintf("errwrapper %s %q proto=%s", v.ErrKind, v.Msg, pid(v.PanErr.Proto()))
